@@ -10,6 +10,7 @@ theorem display_eq (fmt : F → String) (s : EfficiencyRatio F) :
 
 theorem default_eq : (default_ : Option (EfficiencyRatio F)) = some (fresh 14) := by
   unfold default_
+  try simp only [gen_helper]
   rw [new_eq]
   simp [unwrap, isizeMax]
 
